@@ -155,6 +155,9 @@ package document
 //@ ensures old(relIDsUnique(d.documentRelationships.Relationships)) ==> relIDsUnique(d.documentRelationships.Relationships)
 //@ ensures forall j int :: 0 <= j && j < old(len(d.contentTypes.Overrides)) ==> d.contentTypes.Overrides[j] == old(d.contentTypes.Overrides[j])
 //@ ensures unchangedExcept("map:string:[]byte", "ContentTypes.Overrides", "Override.*", "Relationships.Relationships", "Relationship.*")
+// (C02, package-wide invariant docRelsResolve - zz_contracts_verif_pkg.go) every internal relationship of the document list still names a
+// part that is present: the appended relationship's target is the part just stored, relative to word/; earlier entries and parts stay
+//@ ensures old(docRelsResolve(d)) ==> docRelsResolve(d)
 
 // ensureNumberingInitialized: a document that has a numbering part is left alone; one without gets it as above.
 //@ func (*Document).ensureNumberingInitialized
@@ -173,6 +176,9 @@ package document
 //@ ensures old(relIDsUnique(d.documentRelationships.Relationships)) ==> relIDsUnique(d.documentRelationships.Relationships)
 //@ ensures forall j int :: 0 <= j && j < old(len(d.contentTypes.Overrides)) ==> d.contentTypes.Overrides[j] == old(d.contentTypes.Overrides[j])
 //@ ensures unchangedExcept("map:string:[]byte", "ContentTypes.Overrides", "Override.*", "Relationships.Relationships", "Relationship.*")
+// (C02, package-wide invariant docRelsResolve - zz_contracts_verif_pkg.go) no dangling relationship is ever added: every internal
+// relationship of the document list still names a part that is present
+//@ ensures old(docRelsResolve(d)) ==> docRelsResolve(d)
 
 // ---- find or create the definition of a request, create the instance ------------------------------------------------
 
